@@ -59,7 +59,8 @@ typeof = z3.Function("typeof", I, I)              # class id of an object
 subclass = z3.Function("subclass", I, I, B)       # class id x class id
 dict_order = z3.Function("dict_order", KwMap, SeqV)   # insertion order of a dict with these contents (abstract)
 dict_pos = z3.Function("dict_pos", KwMap, Val, I)      # position of a present key in dict_order of these contents
-set_order = z3.Function("set_order", SetMap, I, SeqV)  # an arbitrary iteration order (second arg: iteration instance)
+set_order = z3.Function("set_order", SetMap, I, SeqV)
+set_pos = z3.Function("set_pos", SeqV, Val, I)           # position of a member in an iteration order of a set  # an arbitrary iteration order (second arg: iteration instance)
 fmt = z3.Function("fmt", S, SeqV, S)              # any formatting operation: total function of its arguments
 opaque_str = z3.Function("opaque_str", Val, S)    # str()/repr() of a leaf value
 py_eq = z3.Function("py_eq", Val, Val, B)         # == on values whose identity is not structural
